@@ -361,6 +361,10 @@ def compile_logical_or_and_and_operator(compiler, expr, operator, args):
                 assignment.value = enbool(assignment.value)
             else:
                 ret.expr = enbool(ret.force_expr)
+                # The expression context is now a `BoolOp`, not merely
+                # the first operand's temporary, so it mustn't be
+                # renamed away by an enclosing assignment.
+                ret.temp_variables = []
 
     if var:
         ret.expr = get(expr)
